@@ -54,10 +54,13 @@ func (e *FaultSrv) Note(ctx context.Context, tok int) error {
 	return nil
 }
 
+func (e *FaultSrv) Blob(ctx context.Context, b string) error { return nil }
+
 type FaultCli struct {
 	Echo      func(ctx context.Context, tok int) (int, error)
 	EchoRetry func(ctx context.Context, tok int) (int, error) `retry:"true"`
-	Note      func(ctx context.Context, tok int) error         `notify:"true"`
+	Note      func(ctx context.Context, tok int) error        `notify:"true"`
+	Blob      func(ctx context.Context, b string) error       `notify:"true"`
 }
 
 var faultKinds = map[string]vnet.FaultKind{"fin": vnet.FIN, "rst": vnet.RST, "bh": vnet.Blackhole}
@@ -99,6 +102,8 @@ func faultParams(tier string) []Param {
 		}
 		add("bh", vnet.C2S, 0, vnet.After, "window", "plain", "none", 0)
 		add("bh", vnet.S2C, 0, vnet.MidPayload, "early", "plain", "none", 0)
+		add("bh", vnet.C2S, 0, vnet.After, "window", "plain", "poll", 0)
+		add("bh", vnet.S2C, 0, vnet.Before, "window", "plain", "poll", 0)
 		add("fin", vnet.S2C, 0, vnet.MidPayload, "window", "retry", "none", 1)
 		add("rst", vnet.C2S, 0, vnet.After, "window", "notify", "none", 1)
 		add("fin", vnet.S2C, 0, vnet.Before, "late", "plain", "dialfail", 1)
@@ -356,6 +361,17 @@ func faultBody(s *vsched.Sched, p Param) {
 		s.Env("p-go")
 		call("P", tokP, "plain")
 	})
+	if p.Str("second") == "poll" {
+		// an application that keeps issuing calls more often than the timeout while the peer is
+		// silent: the client must still notice the dead link (the read deadline must be armed)
+		s.Go("poller", func() {
+			for i := 0; i < 12 && !returned("ret-P"); i++ {
+				time.Sleep(time.Second)
+				i := i
+				s.Go(fmt.Sprintf("poll-%d", i), func() { cli.Echo(context.Background(), 80+i) })
+			}
+		})
+	}
 	if p.Str("second") == "again" {
 		s.Go("zprobe2", func() {
 			s.Env("p2-go")
@@ -415,6 +431,11 @@ func init() {
 			return []Param{
 				{Name: "ws", Bound: b + 1, V: map[string]int{"ws": 1}},
 				{Name: "http", Bound: b, V: map[string]int{"ws": 0}},
+				// a frame larger than every internal buffer first, then concurrent calls, under
+				// both base schedules (frame buffers must not be shared between queued frames)
+				{Name: "ws-bigfirst", Bound: b, V: map[string]int{"ws": 1, "big": 70000}},
+				{Name: "ws-bigfirst-desc", Bound: b, V: map[string]int{"ws": 1, "big": 70000, "desc": 1}},
+				{Name: "ws-desc", Bound: b, V: map[string]int{"ws": 1, "desc": 1}},
 			}
 		},
 		Body: func(s *vsched.Sched, p Param) {
@@ -456,9 +477,101 @@ func init() {
 				s.SetObs(obs.String())
 			}
 			s.Begin()
+			if n := p.I("big"); n > 0 {
+				// sent first (highest priority actor name), returns once the frame is written
+				s.Go("a-big", func() { cli.Blob(context.Background(), strings.Repeat("b", n)) })
+			}
 			s.Go("c-plain", func() { v, err := cli.Echo(context.Background(), 60); obs.Set("ret-plain", "%d/%s", v, errClass(err)) })
 			s.Go("c-notify", func() { err := cli.Note(context.Background(), 61); obs.Set("ret-notify", "0/%s", errClass(err)) })
-			s.Go("c-retry", func() { v, err := cli.EchoRetry(context.Background(), 62); obs.Set("ret-retry", "%d/%s", v, errClass(err)) })
+			s.Go("c-retry", func() {
+				v, err := cli.EchoRetry(context.Background(), 62)
+				obs.Set("ret-retry", "%d/%s", v, errClass(err))
+			})
+		},
+	})
+}
+
+// S-HTTPFAULT: an HTTP client whose (reused, keep-alive) connection dies around the second
+// call. C04: a plain call is executed at most once whatever the HTTP stack does underneath,
+// and exactly once when the caller gets an answer.
+func init() {
+	Register(&Scenario{
+		Name:     "httpfault",
+		Property: "C04",
+		Cfg:      vsched.Config{Horizon: 5 * time.Second},
+		Params: func(tier string) []Param {
+			var ps []Param
+			b := 1
+			if tier == "thorough" {
+				b = 2
+			}
+			for _, kind := range []string{"fin", "rst"} {
+				for _, where := range []string{"resp-before", "resp-mid", "req-mid", "req-after"} {
+					ps = append(ps, Param{Name: kind + "-" + where, Bound: b, S: map[string]string{"kind": kind, "where": where}})
+				}
+			}
+			return ps
+		},
+		Body: func(s *vsched.Sched, p Param) {
+			w := NewWorld(s)
+			srv := &FaultSrv{s: s, Calls: map[int]int{}}
+			w.RPC.Register("T", srv)
+			w.Serve()
+			var cli FaultCli
+			if _, err := w.HTTPClient("T", &cli); err != nil {
+				s.Violate("HARNESS: setup: %v", err)
+				return
+			}
+			obs := NewObs()
+			s.Teardown = w.Teardown
+			s.Finish = func() {
+				for _, tok := range []int{60, 61, 62} {
+					if n := srv.Count(tok); n > 1 {
+						s.Violate("C04: handler executed %d times for token %d (a plain HTTP call; the connection was cut at %s)", n, tok, p.Str("where"))
+					}
+				}
+				for _, k := range []string{"warm", "cut", "after"} {
+					if _, ok := obs.Get("ret-" + k); !ok {
+						s.Violate("C04: HTTP call %s never returned; alive: %s", k, strings.Join(s.Alive(), " "))
+					}
+				}
+				if v, _ := obs.Get("ret-after"); v != "62/<nil>" {
+					s.Violate("C04: a call after the cut connection failed: %s", v)
+				}
+				if f, _ := w.Net.Link(0).Fault(); f == vnet.None {
+					obs.Set("fault", "never-struck")
+				}
+				obs.Set("links", "%d", w.Net.LinkCount())
+				s.SetObs(obs.String())
+			}
+			s.Begin()
+			s.Go("caller", func() {
+				v, err := cli.Echo(context.Background(), 60) // warm-up: establishes the keep-alive connection
+				obs.Set("ret-warm", "%d/%s", v, errClass(err))
+				lk := w.Net.Link(0)
+				kind := faultKinds[p.Str("kind")]
+				c2s, s2c := len(lk.Wire(vnet.C2S)), len(lk.Wire(vnet.S2C))
+				switch p.Str("where") {
+				case "resp-before":
+					w.Net.Arm(0, vnet.Cut{Kind: kind, Dir: vnet.S2C, After: s2c})
+				case "resp-mid":
+					w.Net.Arm(0, vnet.Cut{Kind: kind, Dir: vnet.S2C, After: s2c + 40})
+				case "req-mid":
+					w.Net.Arm(0, vnet.Cut{Kind: kind, Dir: vnet.C2S, After: c2s + 60})
+				case "req-after":
+					w.Net.Arm(0, vnet.Cut{Kind: kind, Dir: vnet.C2S, After: c2s + c2s, Inclusive: true})
+				}
+				v, err = cli.Echo(context.Background(), 61)
+				if err == nil && v != 61 {
+					s.Violate("C03: HTTP call returned a foreign result %d", v)
+				}
+				if err == nil && srv.Count(61) != 1 {
+					s.Violate("C04: HTTP call got a result but its handler ran %d times", srv.Count(61))
+				}
+				obs.Set("ret-cut", "%d/%s", v, errClass(err))
+				v, err = cli.Echo(context.Background(), 62)
+				obs.Set("ret-after", "%d/%s", v, errClass(err))
+			})
 		},
 	})
 }
